@@ -16,11 +16,15 @@ db7d4ff, tso.Commit only raises the committed revision: the schedule must now be
 store must not lower the read revision — otherwise VIOLATION with that schedule as replay, before anything
 else is run).
 
-The oracle judges the IMPLEMENTATION transcript; the model transcript is only compared afterwards."""
+The oracle judges the IMPLEMENTATION transcript; the model transcript is only compared afterwards.
+
+Proof side besides KB.Props.C18: KB.Props.C18Cas (EXTRA_PROP_MODULES) — the revision allocator tso.go at atomic-instruction
+granularity, all goroutine sets and interleavings, tied to the source by regenerated shape facts (`source_matches_lts`);
+its dynamic cross-check (kbcheck/tsocas.py, harness/racetest TestTsoCas) runs last, as supporting evidence."""
 import os
 import random
 
-EXTRA_PROP_MODULES = [("KB.Props.OrderC15", "KB.OrderC15")]
+EXTRA_PROP_MODULES = [("KB.Props.OrderC15", "KB.OrderC15"), ("KB.Props.C18Cas", "KB.C18Cas")]
 
 from .. import core
 
@@ -433,7 +437,7 @@ def fwd_oracle(case):
 
 # ---------------------------------------------------------------- the check
 
-def check(rep, tier, seed):
+def check_main(rep, tier, seed):
     quick = tier == "quick"
     # the handler list: from the model's regenerated table, and it must be the harness's own list
     hc = core.Case(SUITE, ["cfg init=%d" % INIT, "handlers"]).run()
@@ -660,3 +664,13 @@ def check(rep, tier, seed):
         "role changes in the middle of a request are not modelled (IsLeader is read once per guard)",
         "guard analysis of kbextract (syntactic, see DESIGN-C18.md) is trusted for the theorem and cross-checked here row by row",
     ]
+
+
+def check(rep, tier, seed):
+    """the property's own suites, then (when they found nothing) the dynamic cross-check of the revision allocator whose
+    atomic-instruction proof is KB.Props.C18Cas (EXTRA_PROP_MODULES): supporting evidence, kbcheck/tsocas.py"""
+    from .. import tsocas
+    res = check_main(rep, tier, seed)
+    if not rep.violations:
+        tsocas.run_dynamic(rep, "C18", seed)
+    return res
